@@ -607,6 +607,15 @@ def _build2():
         expected_probes=["template_restart_abstract", "template_restart_legacy", "template_schema_validated"],
     )
     _REG["C04"] = combine("C04", _REG["C04"], c04_tmpl)
+    c18_tmpl = tmpl_spec(
+        "C18",
+        "exploration",
+        "TMPL-SIM part: a parametrized template (variables in arbitrary numeric positions; detuning maps configured before or after the first use of a variable, the same DMM twice on devices with reusable channels) is switched with strict=True to a device with the very same channels (rebuilt, optionally renamed) at seeded instants of a build history; the switched template, built under the same assignments, must equal the direct construction and the switch cannot be refused",
+        {"mappable_p": 0.15, "lift_p": 0.5, "hist_len": 6, "only_prefix": "C18", "sibling_label": "C18", "sibling_kinds": ["switch_device"], "dmm_twice_p": 0.5, "late_dmm_p": 0.5, "hist_kinds": {"build": 2, "bad": 0.5, "str": 0.2, "abstract": 0.2, "sibling": 6, "restart": 0.5, "cache": 0.3}},
+        assumptions=["the template part switches to an identical device only: perturbed devices are the SEQ-SIM part's business"],
+        expected_probes=["sibling_build_switch_device"],
+    )
+    _REG["C18"] = combine_n("C18", [_REG["C18"], c18_tmpl], [0, 0, 0, 0, 0, 1])
 
     _REG["C17"] = pool_spec(
         "C17",
